@@ -18,6 +18,7 @@ from typing import Any, Final, TextIO, TypeAlias
 from typing_extensions import Never
 
 from mypy import defaults
+from mypy.errorcodes import error_codes
 from mypy.options import PER_MODULE_OPTIONS, Options
 
 _CONFIG_VALUE_TYPES: TypeAlias = (
@@ -367,6 +368,13 @@ def parse_config_file(
                     file=stderr,
                 )
                 updates = {k: v for k, v in updates.items() if k in PER_MODULE_OPTIONS}
+            for key in ("enable_error_code", "disable_error_code"):
+                codes = updates.get(key)
+                if isinstance(codes, list):
+                    invalid = sorted(c for c in codes if c not in error_codes)
+                    if invalid:
+                        print(prefix, f"Invalid error code(s): {', '.join(invalid)}", file=stderr)
+                        updates[key] = [c for c in codes if c in error_codes]
 
             globs = name[5:]
             for glob in globs.split(","):
@@ -703,6 +711,13 @@ def parse_mypy_comments(
                     '(see "mypy -h" for the list of flags enabled in strict mode)',
                 )
             )
+        for key in ("enable_error_code", "disable_error_code"):
+            codes = new_sections.get(key)
+            if isinstance(codes, list):
+                invalid = sorted(c for c in codes if c not in error_codes)
+                if invalid:
+                    errors.append((lineno, f"Invalid error code(s): {', '.join(invalid)}"))
+                    new_sections[key] = [c for c in codes if c in error_codes]
         # Because this is currently special-cased
         # (the new_sections for an inline config *always* includes 'disable_error_code' and
         # 'enable_error_code' fields, usually empty, which overwrite the old ones),
